@@ -16,6 +16,7 @@ mod c09;
 mod c11;
 mod c15;
 mod c18;
+mod c19;
 mod c17;
 mod extract;
 mod c01;
@@ -81,6 +82,7 @@ fn main() {
                 "C11" => c11::run(&params),
                 "C15" => c15::run(&params),
                 "C18" => c18::run(&params),
+                "C19" => c19::run(&params),
                 "C10" => c10::run(&params),
                 "C12" => c12::run(&params),
                 "C17" => c17::run(&params),
